@@ -540,6 +540,7 @@ pub fn span_of(p: &Payload) -> usize {
         Payload::Field { .. } => 48,
         Payload::RawField { which, .. } => fld(*which).nbytes,
         Payload::VecField { which, idxs } => 8 + fld(*which).nbytes * idxs.len(),
+        Payload::RawVecField { which, items } => 8 + fld(*which).nbytes * items.len(),
         Payload::Fmt { .. } => 0,
         Payload::ElemUncompressed { .. } => 64,
     }
@@ -611,6 +612,29 @@ pub fn payload(rng: &mut Rng, c: &Corpus, npool: usize, nf: usize, focus: &str) 
                 flag,
             }
         }
+        8 if rng.chance(1, 2) => {
+            let l = rng.range(1, 4) as usize;
+            let (w, _, _) = raw_field(rng);
+            let f = fld(w);
+            let bad = rng.usize_below(l + 1);
+            Payload::RawVecField {
+                which: w,
+                items: (0..l)
+                    .map(|i| {
+                        if i == bad {
+                            loop {
+                                let (w2, b, _) = raw_field(rng);
+                                if w2 == w {
+                                    break hex(&b);
+                                }
+                            }
+                        } else {
+                            hex(&f.to_le(&field_value(rng, f)))
+                        }
+                    })
+                    .collect(),
+            }
+        }
         8 => {
             let l = rng.range(0, 4) as usize;
             Payload::VecField {
@@ -627,6 +651,7 @@ pub fn payload(rng: &mut Rng, c: &Corpus, npool: usize, nf: usize, focus: &str) 
             affine: rng.chance(1, 3),
             debug: rng.chance(1, 2),
             fail_at: if rng.chance(1, 3) { Some(rng.usize_below(4)) } else { None },
+            alternate: rng.chance(1, 3),
         },
     }
 }
